@@ -958,7 +958,7 @@ Lemma dispatch_ok cfg v r : rv_ok v -> rv_ok (fst (dispatch_rx cfg v r)).
 Proof.
   intros Hok. unfold dispatch_rx. destruct r.
   - apply rv_ok_clear.
-  - destruct Hok; split; assumption.
+  - destruct (c_defer_continue cfg); [exact Hok | destruct Hok; split; assumption].
   - exact Hok.
   - destruct (negb (rq_is_trace (rv_req v))); [|apply rv_ok_clear].
     destruct (hd_is_chunked (rq_headers (rv_req v)) && negb (c_concat cfg)); [exact Hok | apply rv_ok_clear].
@@ -1272,7 +1272,7 @@ Lemma dispatch_inv2 cfg v r : rv_inv2 v -> rv_inv2 (fst (dispatch_rx cfg v r)).
 Proof.
   intros Hi. unfold dispatch_rx. destruct r.
   - apply rv_inv2_clear.
-  - exact Hi.
+  - destruct (c_defer_continue cfg); exact Hi.
   - exact Hi.
   - destruct (negb (rq_is_trace (rv_req v))); [|apply rv_inv2_clear].
     destruct (hd_is_chunked (rq_headers (rv_req v)) && negb (c_concat cfg)); [exact Hi | apply rv_inv2_clear].
